@@ -309,7 +309,14 @@ var (
 )
 
 // subscriberCallback mirrors the generated recv<Op> callback.
+// evtSubscriber stands for the generated <scope>Subscriber: the generated recv<Op> builds a
+// frugal.Method over the user's handler (middleware hooks in there) and invokes it per message.
+type evtSubscriber struct{}
+
+func (s *evtSubscriber) SubscribeEvt(handler func(frugal.FContext, string) error) {}
+
 func subscriberCallback(op string, pf *frugal.FProtocolFactory, handler func(frugal.FContext, string) error) frugal.FAsyncCallback {
+	method := frugal.NewMethod(&evtSubscriber{}, handler, "SubscribeEvt", nil)
 	return func(transport thrift.TTransport) error {
 		iprot := pf.GetProtocol(transport)
 		fctx, err := iprot.ReadRequestHeader()
@@ -336,7 +343,7 @@ func subscriberCallback(op string, pf *frugal.FProtocolFactory, handler func(fru
 		if req.V != nil {
 			v = *req.V
 		}
-		return handler(fctx, v)
+		return method.Invoke([]interface{}{fctx, v}).Error()
 	}
 }
 
